@@ -193,6 +193,10 @@ def _samples(case, ctx, h5, labels):
         kw["log_evidence"] = case["evidence"]
         kw["log_evidence_error"] = 0.5
     s = C(x=x, parameters=list(case["params"]), xp=xp, dtype=dt, **kw)
+    if weighted and n >= 4 and case["seed"] % 2:
+        # a selection of a weighted set: the evidence it holds is its parent's, not that of its own rows
+        s = s[0:n:2]
+        labels.append("selection-of-weighted-set")
     s.save(h5, "obj", flat=case["flat"])
     r = C.load(h5, "obj")
     what = "samples:" + ("flat" if case["flat"] else "nested")
